@@ -21,7 +21,7 @@ from typing import List
 
 import numpy as np
 
-from ..consteval import Raised, Rec, Undecidable
+from ..consteval import FuncVal, Raised, Rec, Undecidable
 from ..index import AnalysisError, Index, norm
 from ..report import Report
 from ..rules import circuitsem as cs
@@ -54,6 +54,7 @@ def run(idx: Index, rep: Report, tier: str):
     check_iqpe_feedback(idx, rep, tier)
     check_state_preparation(idx, rep, tier)
     check_qpe_register(idx, rep, tier)
+    check_unitary_qubit_lists(idx, rep)
     # the controlled evolution phase estimation kicks back from: the operator-exponential generator under control, angles at multiples of the period included
     from .C06 import check_operator_circuit
     check_operator_circuit(idx, rep)
@@ -310,6 +311,53 @@ def check_state_preparation(idx: Index, rep: Report, tier: str):
 
 def _fmt(v) -> str:
     return "[" + ", ".join(f"{complex(x):.3g}" for x in v) + "]"
+
+
+def check_unitary_qubit_lists(idx: Index, rep: Report):
+    """Standard phase estimation places its register right above the highest qubit the unitary reports and strips exactly the reported qubits from the measured
+    histogram; what is left is read as the phase.  The two only fit together when the unitary reports EVERY qubit below the register: each implementation's
+    constructor and qubit_indices() are folded on an input that skips a qubit below its highest one (a Hamiltonian without a term on qubit 1, a circuit whose
+    gates leave qubit 1 idle) and the reported lists must be 0 .. max without a gap."""
+    rule = "K9.qpe-register"
+    TSU = "tangelo/toolboxes/unitary_generator/trotter_suzuki.py"
+    UCF = "tangelo/toolboxes/unitary_generator/unitary_circuit.py"
+
+    class _Op:
+        _sa_model = True
+
+        def __init__(self, terms):
+            self.terms = dict(terms)
+
+    class _Cw:
+        _sa_model = True
+
+        def __init__(self, width):
+            self.width = width
+            self._gates = []
+    count = lambda a, k: max([i for t in a[0].terms for i, _ in t] + [-1]) + 1
+    samples = [(TSU, "TrotterSuzukiUnitary", lambda: [_Op({((0, "Z"),): 0.25, ((2, "Z"),): 0.125, (): 0.5})], {"time": 1.0}, 3, "0.25 Z0 + 0.125 Z2 + 0.5"),
+               (TSU, "TrotterSuzukiUnitary", lambda: [_Op({((1, "X"), (3, "X")): 0.5})], {"time": 1.0}, 4, "0.5 X1 X3"),
+               (UCF, "CircuitUnitary", lambda: [_Cw(3)], {}, 3, "a circuit of width 3 with an idle qubit")]
+    n = 0
+    for rel, cname, args, kwargs, width, label in samples:
+        cls = cs.module_resolver(idx, rel)(cname)
+        if cls is None:
+            raise AnalysisError(f"{cname} not resolvable")
+        qi = idx.cls(f"{rel}::{cname}").methods["qubit_indices"]
+        fo = cs.make_folder(idx, rel, ctors={"count_qubits": count})
+        try:
+            obj = fo.instantiate(cls, args(), dict(kwargs))
+            state, anc = cs.make_folder(idx, rel).call_funcval(FuncVal(qi.node, bound_self=obj, home=rel), [], {})
+        except (Undecidable, Raised) as e:
+            raise AnalysisError(f"{cname} not foldable: {type(e).__name__} {e}")
+        n += 1
+        got = sorted(list(state) + list(anc))
+        rep.decide(got == list(range(width)), rule, qi, qi.node, text=f"{cname} on {label}: reported qubits {got}",
+                   what="a unitary reports every qubit below the place where phase estimation puts its register (the register starts above the highest reported qubit and "
+                        "only the reported qubits are stripped from the histogram before the phase is read)",
+                   reason=f"qubits {sorted(set(range(width)) - set(got))} below the register are not reported: their measured bits stay in front of the phase bits and the phase read "
+                          f"is halved (or shifted by 1/2 when that qubit is in |1>)")
+    rep.floor("unitary implementations folded for their qubit lists", n, 3)
 
 
 def check_qpe_register(idx: Index, rep: Report, tier: str):
